@@ -61,8 +61,9 @@ MANIFEST = {
         "note": "Trusted: Lean kernel + the three standard axioms; the translator tools/gen_seq.py and its semantics of the C++ subset (ArrMem.lean: T* = "
                 "(allocation id, offset) or null, checked cell accesses, flat-address pointer comparison, usize = Nat, allocation never fails, "
                 "right operand of = evaluated first, const T& parameter = pointer; List: Item* = address, null dereference = fault; the block "
-                "allocation of List::insert and the guard + capacity rounding of Array::reserve are NOT translated but replaced by the model's "
-                "refill / growth rule, which are tied by the executed probe); the hand translation of everything that is not translated "
+                "allocation of List::insert and the guard + capacity rounding of Array::reserve (also where a guard helper such as hasStorage(size) "
+                "is called from reserve(size, ref)) are NOT translated but replaced by the model's refill / needGrow / growth rule, which are tied by "
+                "the executed probe and policy_matches_probe; reserve(usize) may be written as a guarded block or as guard helper + growth helper); the hand translation of everything that is not translated "
                 "(Array copy construction/assignment, find, operator==, Array::swap, removeFront/removeBack wrappers, destructors, "
                 "insert(pos, other list) / find / remove(value) / operator== loops of List, PoolList::clear, the iterator classes, the public "
                 "List::sort() wrapper [shape-checked]) into "
